@@ -219,7 +219,11 @@ class SymInt(object):
         c = z3.And(x % (1 << k) == 0, x >= 0, y >= 0, y < (1 << k))
         if E._check(z3.Not(c)) == z3.unsat:
           return SymInt(x + y)
-    boundary('SymInt | SymInt with overlapping or unknown bit ranges')
+    # general case for 32-bit non-negative operands: through bit-vectors
+    rng = z3.And(a >= 0, a < (1 << 32), b >= 0, b < (1 << 32))
+    if E._check(z3.Not(rng)) == z3.unsat:
+      return SymInt(z3.BV2Int(z3.Int2BV(a, 32) | z3.Int2BV(b, 32)))
+    boundary('SymInt | SymInt with operands outside [0, 2^32)')
     return SymInt(a + b)
   __ror__ = __or__
   # comparisons
